@@ -214,7 +214,7 @@ func genExpr(r *rand.Rand, depth, maxDepth int, shape int) *aexpr {
 }
 
 func renderTokens(r *rand.Rand, toks []string, dense bool) []byte {
-	ws := []string{"", "", " ", "  ", "\n", " \t", "\n  ", "\f"}
+	ws := []string{"", "", " ", "  ", "\n", " \t", "\n  ", "\f", "\n\n", "\n \n"}
 	var sb strings.Builder
 	for i, t := range toks {
 		g := ws[r.Intn(len(ws))]
@@ -292,11 +292,38 @@ func arithMain(mode string, a args) {
 		for made < n {
 			maxDepth := 2 + r.Intn(a.num("maxdepth", 9))
 			x := genExpr(r, 0, maxDepth, r.Intn(3))
+			if r.Intn(6) == 0 {
+				// a long flat left-associative chain of one precedence level (hundreds of bytes, one nesting level)
+				k := 40 + r.Intn(140)
+				ops := "+-"
+				if r.Intn(3) == 0 {
+					ops = "*/"
+				}
+				x = &aexpr{v: int64(1 + r.Intn(3))}
+				for i := 0; i < k; i++ {
+					op := ops[r.Intn(2)]
+					v := int64(1 + r.Intn(2))
+					if ops == "*/" {
+						// keep the running value small: multiply by 2 only after a division
+						if op == '*' && i%2 == 0 {
+							op = '/'
+						}
+					}
+					if r.Intn(40) == 0 {
+						v = 0
+					}
+					x = &aexpr{op: op, l: x, r: &aexpr{v: v}}
+				}
+				if r.Intn(3) == 0 {
+					x = &aexpr{op: '*', l: &aexpr{v: 2}, r: x}
+					x.r.par = true
+				}
+			}
 			if _, ok := x.eval(); !ok {
 				continue
 			}
 			toks := x.tokens(0, false)
-			if len(toks) > 160 {
+			if len(toks) > 420 {
 				continue
 			}
 			switch r.Intn(4) {
